@@ -657,6 +657,10 @@ def run(tier: str) -> int:
         U.tup(U.uint(64)), U.tup(B), U.tup(S), U.tup(U.tup(), U.uint(8)), U.tup(U.sarray(U.uint(8), 0), U.uint(64)),
         U.tup(A, A, A, A, A, A, A, A, S, U.uint(32), S),          # head offsets >= 256
         U.tup(U.sarray(U.BYTE, 300), U.uint(16), U.sarray(U.BYTE, 256), B),
+        # all-static tuples whose LAST member is a byte range starting at / around offset 256 (the suffix form of the slice)
+        U.tup(U.sarray(U.BYTE, 256), U.sarray(U.BYTE, 4)), U.tup(U.sarray(U.BYTE, 255), U.sarray(U.BYTE, 4)),
+        U.tup(A, A, A, A, A, A, A, A, A), U.tup(U.sarray(U.uint(64), 40), U.tup(U.uint(8), A)),
+        U.tup(U.sarray(U.BYTE, 1000), U.uint(64), A), U.sarray(U.tup(A, A, A, A, A, A, A, A, A), 2),
         U.sarray(U.tup(B, S), 3), U.darray(U.tup(B, U.darray(U.uint(16)))), U.darray(U.darray(S)),
         U.sarray(B, 17), U.darray(B), U.sarray(U.sarray(B, 3), 3), U.darray(U.sarray(B, 9)),
         U.sarray(S, 2), U.darray(S), U.sarray(U.tup(), 3), U.darray(U.sarray(U.uint(8), 0)),
